@@ -534,7 +534,8 @@ static void judge_completed(Walker &w, size_t opi, const char *how)
 	if (missing) {
 		int k = __builtin_ctzll(missing);
 		fail("iter-missed-key", R.site_next, "op %zu: %s completed after %u keys without returning \"%s\", which was present during the whole iteration (%s)",
-		     opi, how, w.nret, printable(kstr(k)).c_str(), w.ins ? "puts happened meanwhile" : "only removals happened meanwhile");
+		     opi, how, w.nret, printable(kstr(k)).c_str(),
+		     w.ins ? "puts happened meanwhile" : w.mut ? "only removals happened meanwhile" : "the map was not modified meanwhile");
 		return;
 	}
 	if (!w.ins)
